@@ -12,6 +12,7 @@ Decided (structure of conf.c):
   P4  spifconf_parse closes a stream before popping it and pushes only streams it has opened
   I1  no use of an uninitialised local in conf.c (clang's CFG-based analyses)
   P5  no call passes a NULL constant to a parameter its callee ASSERT-guards (the <argv> push must be accepted)
+  P6  a function that takes a new table entry into use stores every field of it (no stale flags from the slot's previous user)
 Not decided: exactly-once in-order delivery, trimming, include ordering."""
 from .. import facts, expr as X, confrules as R
 from ..report import Check
@@ -24,6 +25,8 @@ def run(tier="quick"):
     chk.rule("P1", "parse_line pops only its own <argv> push and always pops it")
     chk.rule("P3", "push functions write only above the old top of the stack")
     chk.rule("P2", "handler calls receive the right state and their result is stored back")
+    chk.rule("P6", "a function that takes a new table entry into use stores every field of it")
+    chk.rule("P5", "no NULL constant is passed to an ASSERT-guarded parameter")
     chk.rule("P4", "parse: fclose before pop, push after successful open")
     chk.rule("I1", "no uninitialised local is used")
     prog = facts.extract(only=["conf.c"])
@@ -37,6 +40,8 @@ def run(tier="quick"):
     nh = R.check_handler_protocol(chk, u)
     np4 = R.check_parse_close_before_pop(chk, u)
     R.check_null_literal_args(chk, prog, u, "P5")
+    np6 = R.check_push_initialises(chk, prog, u, "P6")
+    chk.count("entry_taking_functions", np6, floor=3)
     diags = facts.clang_diagnostics(warn_flags=["-Wuninitialized", "-Wsometimes-uninitialized"], units=["conf.c"])
     for unit, fpath, line, col, flag, msg in diags:
         chk.ob("I1", "conf.c", "uninit:%s" % msg.split("'")[1] if "'" in msg else msg[:30], False, loc="src/%s:%d" % (fpath, line),
